@@ -6,6 +6,7 @@ package main
 import (
 	"errors"
 	"fmt"
+	"sort"
 	"strings"
 
 	"github.com/kercylan98/vivid"
@@ -263,6 +264,119 @@ func scenario(p params, bounds []int) *vexp.Scenario {
 	}
 }
 
+// dupSpawnScenario: somebody tries to spawn an actor under the name of a live subscriber and is (rightly) refused; the
+// live subscriber keeps receiving events.
+func dupSpawnScenario(byParent bool, bounds []int) *vexp.Scenario {
+	return &vexp.Scenario{
+		Name:   fmt.Sprintf("refused-duplicate-spawn/by-parent=%v", byParent),
+		Family: "dup-spawn",
+		Cfg:    vsys.CoarseSends(120000),
+		Bounds: bounds,
+		Setup:  func(x *vexp.X) { vsys.CoarseSetupSends() },
+		Body: func(x *vexp.X) {
+			w := vsys.NewWorld(x)
+			w.Quiet = true
+			w.Start()
+			var seen []string
+			mkSub := func() *vsys.Script {
+				return &vsys.Script{Name: "sub",
+					Launch: func(a *vsys.Act, ctx vivid.ActorContext) { ctx.EventStream().Subscribe(ctx, tick{}) },
+					OnOther: func(a *vsys.Act, ctx vivid.ActorContext, m any) {
+						if e, ok := m.(tick); ok {
+							seen = append(seen, e.ID)
+						}
+					}}
+			}
+			refused := false
+			par := &vsys.Script{Name: "p", Children: []*vsys.Script{mkSub()}}
+			par.OnMsg = func(a *vsys.Act, ctx vivid.ActorContext, m vsys.Msg) {
+				if m.ID == "dup" {
+					_, err := a.SpawnChild(ctx, mkSub())
+					refused = err != nil
+				}
+			}
+			w.SpawnRoot(par)
+			w.SpawnRoot(mkSub()) // a top-level subscriber of the same name elsewhere in the tree
+			vrt.QuiesceNoTimers()
+			before := len(seen)
+			w.Sys.EventStream().Publish(w.Sys, tick{ID: "e1"})
+			vrt.QuiesceNoTimers()
+			if byParent {
+				w.Sys.Tell(w.Ref("/p"), vsys.Msg{ID: "dup"})
+			} else {
+				_, err := w.SpawnRoot(mkSub())
+				refused = err != nil
+			}
+			vrt.QuiesceNoTimers()
+			if !refused {
+				x.Fail("harness", "the duplicate spawn was not refused")
+			}
+			w.Sys.EventStream().Publish(w.Sys, tick{ID: "e2"})
+			vrt.QuiesceNoTimers()
+			got := strings.Join(seen[before:], ",")
+			sortedGot := strings.Split(got, ",")
+			sort.Strings(sortedGot)
+			if strings.Join(sortedGot, ",") != "e1,e1,e2,e2" {
+				x.Fail("delivered-to-every-subscriber", "two live subscribers (/sub and /p/sub); after a refused attempt to spawn another actor under one of their names they saw %v of the events e1, e2 (each should see both)", seen[before:])
+			}
+			x.Outcome(got)
+			w.Sys.Stop()
+			vrt.QuiesceNoTimers()
+		},
+	}
+}
+
+// fanoutScenario: n subscribers of one type, one publisher publishing three events from one handler: each subscriber
+// sees each event exactly once, in publication order - whatever n is.
+func fanoutScenario(n int, bounds []int) *vexp.Scenario {
+	cfg := vsys.CoarseSends(400000)
+	cfg.SwitchOnSpawn = true
+	return &vexp.Scenario{
+		Name:   fmt.Sprintf("fan-out/subscribers=%d", n),
+		Family: "fan-out",
+		Cfg:    cfg,
+		Bounds: bounds,
+		Setup:  func(x *vexp.X) { vsys.CoarseSetupSends() },
+		Body: func(x *vexp.X) {
+			w := vsys.NewWorld(x)
+			w.Quiet = true
+			w.Start()
+			seen := make([][]string, n)
+			for i := 0; i < n; i++ {
+				i := i
+				w.SpawnRoot(&vsys.Script{Name: fmt.Sprintf("s%03d", i),
+					Launch: func(a *vsys.Act, ctx vivid.ActorContext) { ctx.EventStream().Subscribe(ctx, tick{}) },
+					OnOther: func(a *vsys.Act, ctx vivid.ActorContext, m any) {
+						if e, ok := m.(tick); ok {
+							seen[i] = append(seen[i], e.ID)
+						}
+					}})
+			}
+			w.SpawnRoot(&vsys.Script{Name: "pub", OnMsg: func(a *vsys.Act, ctx vivid.ActorContext, m vsys.Msg) {
+				for _, id := range []string{"e1", "e2", "e3"} {
+					ctx.EventStream().Publish(ctx, tick{ID: id})
+				}
+			}})
+			vrt.QuiesceNoTimers()
+			w.Sys.Tell(w.Ref("/pub"), vsys.Msg{ID: "go"})
+			vrt.QuiesceNoTimers()
+			bad := 0
+			for i := range seen {
+				if strings.Join(seen[i], ",") != "e1,e2,e3" {
+					bad++
+					if bad <= 3 {
+						x.Fail("per-publisher-order", "subscriber s%03d of %d saw %v, the publisher published e1, e2, e3 in that order", i, n, seen[i])
+					}
+				}
+			}
+			x.Outcome(fmt.Sprintf("bad=%d", bad))
+			vrt.Freeze()
+			w.Sys.Stop()
+			vrt.QuiesceNoTimers()
+		},
+	}
+}
+
 func build(tier string) []*vexp.Scenario {
 	bounds := []int{0, 1}
 	if tier == "thorough" {
@@ -273,6 +387,16 @@ func build(tier string) []*vexp.Scenario {
 		for _, n := range []int{1, 2} {
 			out = append(out, scenario(params{kind: k, pubs: n}, bounds))
 		}
+	}
+	for _, bp := range []bool{false, true} {
+		out = append(out, dupSpawnScenario(bp, []int{0, 1}))
+	}
+	for _, n := range []int{1, 63, 64, 65} {
+		out = append(out, fanoutScenario(n, []int{0, 1}))
+	}
+	out = append(out, fanoutScenario(130, []int{0}))
+	if tier == "thorough" {
+		out = append(out, vexp.Split(8, func() *vexp.Scenario { return fanoutScenario(130, []int{0, 1}) })...)
 	}
 	return out
 }
